@@ -233,7 +233,7 @@ func (oc *opoolCase) expire(k int) {
 }
 
 func genCaseOpool(c *Ctx) {
-	limits := []int{1, 2, 3, 4, 8, 256}
+	limits := []int{1, 2, 3, 4, 8, 16, 32, 256}
 	limit := limits[c.Rng.Intn(len(limits))]
 	old := protocol.VerifSetOrphanLimit(limit)
 	defer protocol.VerifSetOrphanLimit(old)
@@ -243,16 +243,21 @@ func genCaseOpool(c *Ctx) {
 	oc.marks = []time.Time{oc.tick()}
 	c.Op(fmt.Sprintf("reset limit=%d%s", limit, caseTag), "ok")
 	c.Count(fmt.Sprintf("opool:limit=%d", limit))
-	n := 20 + c.Rng.Intn(60)
+	n := 20 + c.Rng.Intn(60) + 3*limit // long enough for the pool to fill and turn over
 	if limit == 256 {
-		n = 300 + c.Rng.Intn(120)
+		n = 450 + c.Rng.Intn(200)
 	}
 	nextID := 1
 	nParents := 1 + c.Rng.Intn(4)
 	for i := 0; i < n; i++ {
 		r := c.Rng.Intn(100)
+		if limit == 256 && r < 80 {
+			r = r * 62 / 80 // a pool of 256 needs more adds to fill up; deletes, duplicates and expiry stay in the mix
+		} else if limit == 256 {
+			r = 62 + (r-80)*38/20
+		}
 		switch {
-		case r < 62 || (limit == 256 && r < 90):
+		case r < 62:
 			id := nextID
 			nextID++
 			var parent int
